@@ -196,7 +196,7 @@ func init() {
 			if e == nil {
 				return Simple("none")
 			}
-			return Simple(map[byte]string{'s': "string", 'h': "hash", 'l': "list", 'S': "set"}[e.kind])
+			return Simple(map[byte]string{'s': "string", 'h': "hash", 'l': "list", 'S': "set", 'J': "ReJSON-RL"}[e.kind])
 		}},
 		"RENAME": {3, true, func(c *Ctx) Reply {
 			e := c.get(c.Argv[1])
